@@ -100,8 +100,9 @@ var stmtForms = []struct{ name, body string }{
 	{"variadic-calls", "\tt := &T{v: a}\n\tsum(a)\n\tsum(a, 1, b)\n\tsum(a, mk(b)...)\n\tt.vs()\n\tt.vs(1, 200)\n\tx := sum(a, b) + t.vs(7, 8, 9)\n\tif x > 3 {\n\t\treturn sum(x, mk(b)...)\n\t}\n\treturn spread(a, b)\n"},
 	{"make-forms", "\tm := make(map[string]int, 4)\n\tn := make(map[int]string)\n\ts := make([]int, 2)\n\tm[\"k\"] = a\n\tn[b] = \"v\"\n\ts[1] = b\n\tif a > 0 {\n\t\tq := make(map[int]int, a)\n\t\tq[1] = 2\n\t\treturn len(q) + len(m)\n\t}\n\treturn len(m) + len(n) + len(s) + s[1]\n"},
 	{"fresh-locals", "\ts := scale(1.5, 2.5)\n\tu := narrow(200)\n\tr := fresh()\n\tw := narrow(byte(a)) + fresh2(b)\n\tfmt.Println(s, u, r, w)\n\tq := scale(float64(a), 0.5)\n\tr2 := fresh() + fresh2(a)\n\tfmt.Println(q, r2)\n\treturn r + r2\n"},
-	{"tuple-assign-phases", "\ts := []int{10, 20, 30}\n\ti := 0\n\ts[i], i = a, 1\n\tfmt.Println(s, i)\n\tj := 2\n\tj, s[j] = 0, b\n\tfmt.Println(s, j)\n\tm := map[int]int{}\n\tm[1], m[1] = a, b\n\tfmt.Println(m[1])\n\tt := &T{v: 1}\n\tu := t\n\tt.v, t = 7, &T{v: 2}\n\tfmt.Println(t.v, u.v)\n\tk := 0\n\ts[k], s[k+1], k = s[k+1], s[k], 2\n\tfmt.Println(s, k)\n\tx, y := a, b\n\tx, y = y, x+y\n\tp, q := two(a)\n\ts[0], _ = two(b)\n\treturn x + y + p + q + s[0] + i + j + k\n"},
+	{"tuple-assign-phases", "\ts := []int{10, 20, 30}\n\ti := 0\n\ts[i], i = a, 1\n\tfmt.Println(s, i)\n\tj := 2\n\tj, s[j] = 0, b\n\tfmt.Println(s, j)\n\tm := map[int]float64{}\n\tm[1], m[2] = 1, 3\n\tfmt.Println(m[1]/2, m[2]/2)\n\tt := &T{v: 1}\n\tu := t\n\tt.v, t = 7, &T{v: 2}\n\tfmt.Println(t.v, u.v)\n\tk := 0\n\ts[k], s[k+1], k = s[k+1], s[k], 2\n\tfmt.Println(s, k)\n\tx, y := a, b\n\tx, y = y, x+y\n\tp, q := two(a)\n\ts[0], _ = two(b)\n\treturn x + y + p + q + s[0] + i + j + k\n"},
 	{"literal-result-counts", "\tx, y := lit2(a)\n\tz := lit1(b)\n\tlit0(a)\n\treturn x + y + z\n"},
+	{"tuple-duplicate-target", "\tm := map[int]int{}\n\tm[1], m[1] = a, b\n\tfmt.Println(m[1])\n\treturn m[1]\n"},
 	{"blank-params", "\tx := bp(a, b, 5)\n\tbp(1, 2, 3)\n\ty := bq(a, b)\n\treturn x + y + bp(b, a, a)\n"},
 }
 
